@@ -431,7 +431,7 @@ fn bit(x: bool) -> &'static str {
     if x { "1" } else { "0" }
 }
 fn glob_ok(p: &str) -> bool {
-    globset::Glob::new(p).is_ok()
+    crate::globfact::is_valid(p)
 }
 fn of64(x: Option<f64>) -> String {
     x.map_or_else(|| "-".to_string(), |v| v.to_bits().to_string())
@@ -1244,5 +1244,6 @@ pub fn run(tier: Tier, seed: u64, out: &str) {
         }
     }
     sink.extra.insert("trivial_tag_prefixes".into(), serde_json::json!(["valid-base"]));
+    crate::globfact::flush(&mut sink);
     sink.finish(out);
 }
